@@ -98,7 +98,11 @@ Definition decode_inst (D : desc) (t : ptable) (tol : Z) (s : inst) (frame : lis
                 if is_nil rt then (s, Ok h, false)
                 else
                   let c := map (fun q => get_value (d_msb D) (p_bits p) (snd (fst q)) (snd q)) (d_params D) in
-                  if zlist_eqb (ident D h) (ident D c) then (s, Ok h, false) else (s, IRErr DecodeError, true)
+                  if zlist_eqb (ident D h) (ident D c) then (s, Ok h, false)
+                  else
+                    (* the source stops the held key's timer and raises DecodeError INSIDE the try whose handler is
+                       `except IRException: pass`: the frame goes on to the full parse *)
+                    let '(s', r, _) := full in (s', r, true)
             | IRErr _ => full
             | PyErr e => (s, PyErr e, false)
             | EncErr => (s, EncErr, false)
